@@ -2,6 +2,15 @@
 """Regenerates MANIFEST.json from the table below (keeps it valid at all times)."""
 import json, sys
 CHECKS = {
+ "C04": dict(level="exploration", design="4/C04",
+   text="Seeded proptest search over LEF library values covering every supported statement, each rendered three times by an independent LEF renderer with random statement order (order within lists preserved), whitespace/newlines, ASCII and non-ASCII comments, keyword case and number spellings (trailing zeros, leading dot, redundant .0), versions 5.3-5.8, with/without END LIBRARY; LefLibrary::open must return exactly the value. Negative variants (END LIBRARY missing below 5.6, NAMESCASESENSITIVE / SOURCE above 5.4) must be errors.",
+   note="Trusted base: the renderer harness/src/gen/lef.rs as the reading of the LEF syntax. Tokens whitespace-separated; names start with an ASCII letter and are not keywords; no '+'/exponent numbers; VERSION first.",
+   technique="property-based testing: differential oracle, independent renderer -> reader under test, with metamorphic lexical variation"),
+ "C05": dict(level="exploration", design="4/C05",
+   text="Domain = the image of the reader: every library obtained by reading rendered G-lef texts (all constructs, versions 5.3-5.8) plus each version-gated statement under each version (exhaustive 6x3) and hand-written texts; to_string()/save() must succeed and the written text must read back to an equal library.",
+   note="Layout of the written text is free. The lefrw binary is a thin wrapper over open/save and is exercised through those.",
+   technique="property-based testing: write/read round-trip oracle over the reader's image"),
+
  "C06": dict(level="exploration", design="4/C06",
    text="Seeded proptest search over hierarchical GDSII libraries (1-5 structs in shuffled order; rectangles cw/ccw, histogram/45-degree/star/near-rectangle/small-grid polygons, boxes, paths; SREFs in all eight orientations; AREFs with literal axis-parallel, rotated and skewed lattices up to 300x300; labels on vertices, edges, inside, outside, other layers, mixed case). Oracle: an independent flattener under GDSII semantics (reflect, rotate ccw, translate; lattice expansion) and exact point-in-shape decide per cell the shapes with nets, the annotations and the flattened multiset per (layer, datatype). Malformed hierarchies (dangling, cyclic, self reference, zero rows/cols, empty boundary) must be errors.",
    note="An import error on a well-formed library is allowed by the statement (counted as refused). MAG != 1, absolute flags, nodes, two different labels on one shape not generated.",
